@@ -846,10 +846,10 @@ func genScript(src *sim.Src) *script {
 }
 
 // isSymbolName: Textmapper identifiers are plain names (dashes allowed inside) or
-// quoted token names such as '+' or 'b'.
+// quoted names such as '+', 'b' or "else" (textmapper.tm: identifier<+Str>).
 func isSymbolName(name string) bool {
-	if len(name) >= 2 && name[0] == '\'' && name[len(name)-1] == '\'' && !strings.Contains(name, "\n") {
-		return true
+	if len(name) >= 2 && (name[0] == '\'' || name[0] == '"') && name[len(name)-1] == name[0] && !strings.Contains(name, "\n") {
+		return true // quoted_id or scon: the tm grammar allows both wherever a symbol is named
 	}
 	if name == "" || !identRe(name[0]) {
 		return false
@@ -1441,6 +1441,11 @@ func (e *lsEngine) Run(src *sim.Src, log *sim.Log, res *sim.Result) {
 	res.Sched = strings.Join(st.sched, "")
 	res.NonTriv = len(sc.diags) > 0 && st.nextDiag > 0
 	dec := obj{"script": names, "schedule": res.Sched, "faults": res.Faults, "documents": len(sc.diags)}
+	var texts []string
+	for _, d := range sc.diags {
+		texts = append(texts, fmt.Sprintf("op#%d %s v%d: %q", d.opIndex, d.uri, d.version, d.text))
+	}
+	dec["document_texts"] = texts
 	for _, d := range sc.diags {
 		if d.text != "" {
 			t := d.text
